@@ -62,7 +62,10 @@ def strip_comments(src):
     return "".join(out)
 
 
-def audit_proofs(pid):
+SECTION_DECL = re.compile(r"^\s*(Variable|Variables|Hypothesis|Hypotheses|Context)\b")
+
+
+def audit_proofs(pid, tier="quick"):
     """returns (ok, info dict)"""
     info = {"theorems": [], "assumptions": [], "problems": []}
     ok, out = E.build_coq()
@@ -70,9 +73,17 @@ def audit_proofs(pid):
         info["problems"].append("coq build failed: " + out[-1500:])
         return False, info
     for f in glob.glob(os.path.join(E.COQ, "**", "*.v"), recursive=True):
+        depth = 0
         for n, line in enumerate(strip_comments(open(f).read()).split("\n"), 1):
             if FORBIDDEN.search(line):
                 info["problems"].append("forbidden construct in %s:%d: %s" % (f, n, line.strip()))
+            # a Variable / Hypothesis outside a section declares an axiom
+            if re.match(r"^\s*Section\s+\w+\s*\.", line):
+                depth += 1
+            elif re.match(r"^\s*End\s+\w+\s*\.", line) and depth > 0:
+                depth -= 1
+            elif SECTION_DECL.match(line) and depth == 0:
+                info["problems"].append("%s outside a section in %s:%d" % (SECTION_DECL.match(line).group(1), f, n))
     pf = os.path.join(E.COQ, "Properties", pid + ".v")
     if not os.path.exists(pf):
         info["problems"].append("no theorem file " + pf)
@@ -95,6 +106,14 @@ def audit_proofs(pid):
     bad = [a for a in axioms if a not in ALLOWED_AXIOMS]
     if bad or closed + (1 if axioms else 0) < nprint:
         info["problems"].append("theorems depend on axioms: %s" % bad)
+    if tier == "thorough" and not info["problems"]:
+        # independent re-check of the compiled theorem file and everything it depends on
+        rc, out = E.sh("coqchk -o -silent -Q theories CB -Q proofs CBP -Q Properties CBProps CBProps.%s" % pid,
+                       cwd=E.COQ, timeout=1800)
+        m = re.search(r"\* Axioms:\s*(.*?)\n\s*\n", out, flags=re.S)
+        info["coqchk"] = {"rc": rc, "axioms": (m.group(1).strip() if m else "?")}
+        if rc != 0 or not m or m.group(1).strip() != "<none>":
+            info["problems"].append("coqchk: rc=%d axioms=%s" % (rc, info["coqchk"]["axioms"][:300]))
     return not info["problems"], info
 
 
@@ -313,7 +332,7 @@ def main():
 
     plan = P.ALL[pid]
     violations = []
-    proofs_ok, pinfo = audit_proofs(pid)
+    proofs_ok, pinfo = audit_proofs(pid, tier)
     results = run_plan(plan, tier, seed, wd)
 
     if hasattr(plan, "cross_cfg"):
@@ -398,7 +417,7 @@ def main():
                              "Rust harness + hooks (--cfg circular_buffer_verif)", "case generators tools/cases.py, tools/props.py",
                              "hand-written model coq/theories/*.v tied to /repo by the correspondence check only"],
             "theorems": pinfo["theorems"], "assumptions": sorted(set(pinfo["assumptions"])),
-            "theorem_file_sha256": pinfo.get("file_sha256"),
+            "theorem_file_sha256": pinfo.get("file_sha256"), "coqchk": pinfo.get("coqchk"),
             "proof_problems": pinfo["problems"],
             "evaluations": total_evals, "distinct_nontrivial": total_nt,
             "rule": "one evaluation = one API call run on the implementation and on the extracted model from the same state; "
